@@ -1,0 +1,172 @@
+//go:build verif
+// +build verif
+
+// Contracts for the websocket package (build tag verif; never compiled into the library).
+// Specification source: RFC 6455 sections 5.2 (base framing), 5.4 (fragmentation), 5.5 (control frames), 7.4.1 (status
+// codes) and the statements of C13..C15.
+
+package websocket
+
+import (
+	"io"
+	"time"
+)
+
+func prim_forall(n int, f func(i int) bool) bool {
+	for i := 0; i < n; i++ {
+		if !f(i) {
+			return false
+		}
+	}
+	return true
+}
+
+// ghost byte streams (engine primitives; bodies are never executed)
+func ghost_rd_pos(r io.Reader) int        { panic("ghost") }
+func ghost_old_rd_pos(r io.Reader) int    { panic("ghost") }
+func ghost_rd_len(r io.Reader) int        { panic("ghost") }
+func ghost_rd_at(r io.Reader, i int) byte { panic("ghost") }
+
+// maskBytes uses unsafe word-at-a-time XOR: its contract is assumed (see the evidence's trusted base)
+//@ trusted maskBytes
+//@ assigns maskBytes b[*]
+//@ ensures maskBytes C14.mask.pos
+func ens_maskBytes(pos int, b []byte, ret0 int) bool { return ret0 == (pos+len(b))&3 }
+
+// WriteControl serialises against the write lock with a timer (channels, select): verified for C15 only as far as
+// stated there; here only its frame matters: it never touches the reader's state
+//@ trusted (*Conn).WriteControl
+//@ assigns (*Conn).WriteControl c.writeErr, c.writeErrMu
+
+// the reader side of a connection as newConnBRW builds it
+func spec_wfReader(c *Conn) bool {
+	return c.br != nil && c.readRemaining >= 0 && c.readLength >= 0 && c.handlePing != nil && c.handlePong != nil && c.handleClose != nil
+}
+
+//@ requires (*Conn).handleProtocolError
+func req_hpe(c *Conn) bool { return c != nil }
+
+// every protocol error is answered with a Close frame carrying status 1002 and reported as an error
+//@ at-call (*Conn).handleProtocolError WriteControl C14.close-1002
+func at_hpe(arg_messageType int, arg_data []byte) bool {
+	return arg_messageType == CloseMessage && len(arg_data) >= 2 && arg_data[0] == 1002>>8 && arg_data[1] == 1002&0xff
+}
+
+//@ ensures (*Conn).handleProtocolError C14.protocol-error.returns-error
+func ens_hpe(ret0 error) bool { return ret0 != nil }
+
+//@ assigns (*Conn).handleProtocolError c.writeErr, c.writeErrMu
+
+//@ ensures FormatCloseMessage C14.close-message
+func ens_FormatCloseMessage(closeCode int, text string, ret0 []byte) bool {
+	return len(ret0) == 2+len(text) && ret0[0] == byte(closeCode>>8) && ret0[1] == byte(closeCode)
+}
+
+// RFC 6455 7.4.1 / IANA registry: the status codes an endpoint may receive in a Close frame
+func spec_validCloseCode(code int) bool {
+	switch code {
+	case 1000, 1001, 1002, 1003, 1007, 1008, 1009, 1010, 1011, 1012, 1013:
+		return true
+	}
+	return code >= 3000 && code <= 4999
+}
+
+//@ ensures isValidReceivedCloseCode C14.close-codes
+func ens_closeCodes(code int, ret0 bool) bool { return ret0 == spec_validCloseCode(code) }
+
+// ---------- advanceFrame against RFC 6455 5.2 ----------
+
+//@ assume-pure-handlers (*Conn).advanceFrame
+//@ requires (*Conn).advanceFrame
+func req_advanceFrame(c *Conn) bool { return spec_wfReader(c) }
+
+// where the next frame header starts: after what was left of the previous frame
+func spec_hdr(c *Conn, old_c Conn) int { return ghost_old_rd_pos(c.br) + int(old_c.readRemaining) }
+
+// an accepted frame has RSV2/RSV3 clear, RSV1 only with negotiated compression, and a known opcode
+//@ ensures (*Conn).advanceFrame C14.rsv-opcode
+func ens_af_rsv(c *Conn, old_c Conn, ret0 int, ret1 error) bool {
+	if ret1 != nil {
+		return true
+	}
+	h := spec_hdr(c, old_c)
+	b0 := ghost_rd_at(c.br, h)
+	op := int(b0 & 0x0f)
+	if b0&0x30 != 0 || b0&0x40 != 0 && old_c.newDecompressionReader == nil {
+		return false
+	}
+	return ret0 == op && (op == 0 || op == 1 || op == 2 || op == 9 || op == 10)
+}
+
+// control frames are final and carry at most 125 bytes (5.5)
+//@ ensures (*Conn).advanceFrame C14.control
+func ens_af_control(c *Conn, old_c Conn, ret0 int, ret1 error) bool {
+	if ret1 != nil || !(ret0 == PingMessage || ret0 == PongMessage) {
+		return true
+	}
+	h := spec_hdr(c, old_c)
+	return ghost_rd_at(c.br, h)&0x80 != 0 && ghost_rd_at(c.br, h+1)&0x7f <= 125
+}
+
+// fragmentation (5.4): a data frame starts a message only when none is in progress, a continuation only when one is;
+// the final flag of the message follows FIN; control frames leave it alone
+//@ ensures (*Conn).advanceFrame C14.sequence
+func ens_af_sequence(c *Conn, old_c Conn, ret0 int, ret1 error) bool {
+	if ret1 != nil {
+		return true
+	}
+	fin := ghost_rd_at(c.br, spec_hdr(c, old_c))&0x80 != 0
+	switch ret0 {
+	case TextMessage, BinaryMessage:
+		return old_c.readFinal && c.readFinal == fin
+	case continuationFrame:
+		return !old_c.readFinal && c.readFinal == fin
+	}
+	return c.readFinal == old_c.readFinal
+}
+
+// masking (5.3): frames from a client are masked, frames from a server are not
+//@ ensures (*Conn).advanceFrame C14.mask
+func ens_af_mask(c *Conn, old_c Conn, ret1 error) bool {
+	if ret1 != nil {
+		return true
+	}
+	return (ghost_rd_at(c.br, spec_hdr(c, old_c)+1)&0x80 != 0) == old_c.isServer
+}
+
+// payload length (5.2): 7-bit, 16-bit or 64-bit form; the most significant bit of the 64-bit form must be 0, so an
+// accepted data frame never has a negative number of remaining bytes
+//@ ensures (*Conn).advanceFrame C14.length
+func ens_af_length(c *Conn, old_c Conn, ret0 int, ret1 error) bool {
+	if ret1 != nil || !(ret0 == TextMessage || ret0 == BinaryMessage || ret0 == continuationFrame) {
+		return true
+	}
+	r, h := c.br, spec_hdr(c, old_c)
+	l7 := int64(ghost_rd_at(r, h+1) & 0x7f)
+	want := l7
+	if l7 == 126 {
+		want = int64(ghost_rd_at(r, h+2))<<8 | int64(ghost_rd_at(r, h+3))
+	} else if l7 == 127 {
+		if ghost_rd_at(r, h+2)&0x80 != 0 {
+			return false
+		}
+		want = 0
+		for i := 0; i < 8; i++ {
+			want = want<<8 | int64(ghost_rd_at(r, h+2+i))
+		}
+	}
+	return c.readRemaining == want && c.readRemaining >= 0
+}
+
+// read limit: the message length accumulates over the fragments and an accepted frame never takes it above the limit
+//@ ensures (*Conn).advanceFrame C14.limit
+func ens_af_limit(c *Conn, old_c Conn, ret0 int, ret1 error) bool {
+	if ret1 != nil || !(ret0 == TextMessage || ret0 == BinaryMessage || ret0 == continuationFrame) {
+		return true
+	}
+	return c.readLength == old_c.readLength+c.readRemaining && c.readLength >= 0 && (c.readLimit <= 0 || c.readLength <= c.readLimit) && c.readLimit == old_c.readLimit
+}
+
+//@ assigns (*Conn).advanceFrame c.readRemaining, c.readFinal, c.readLength, c.readDecompress, c.readMaskPos, c.readMaskKey, c.writeErr, c.writeErrMu, ghost.rd(c.br), ghost.ioerr
+
+var _ = time.Second
